@@ -376,17 +376,206 @@ theorem preflightGrant_facts (cc : CorsCfg) (ms : List Str) (rq : CorsReq) :
 end Cors
 end Restful
 
+/-! ### from the filter's outcome to an observation: what is derived and what only the harness sees
+
+The model of the filter (`corsOut`) says two things: which headers the filter adds with
+`resp.AddHeader`, and whether it calls `chain.ProcessFilter`.  It has no status, no body, no event
+log and no twin.  The predicates `Spec.c08Holds` / `Spec.c09Holds` speak about an OBSERVATION
+(`Spec.CorsObs`): the real exchange compared with the exchange of a twin container without the
+filter.  To state them of the model without pretending, the rest of the container is made explicit
+as an ARBITRARY function `k : Rest` — everything behind the filter (later filters, the route function
+or the router's error answer, net/http), as a function of the header lines already on the response
+when control arrives.  Then
+
+* the container with the filter is `withFilter k out` and the twin is `k []`;
+* the observation is computed from the two exchanges the way the harness computes it (`observe`);
+* what follows from the model ALONE, for every `k`: when the filter passes control on, it has done
+  nothing but `AddHeader` (`withFilter_passOn`), and for a request without Origin or from a
+  disallowed origin the exchange IS the twin's (`withFilter_absent`, from `corsOut_not_allowed`) —
+  so "processed exactly as if the filter were absent" is a theorem there, with no assumption;
+* what does NOT follow from the model, and is therefore a HYPOTHESIS of `C08_spec` / `C09_spec` for
+  allowed origins only (`RestOK k`): that the code behind the filter leaves the lines the filter
+  added alone and is otherwise blind to them (frame), that it logs when it runs, and that it sets
+  no CORS header of its own.  These are facts about user code; the harness's generated containers
+  have them by construction, and the twin comparison measures their consequences on the real code
+  on every request (`missing`, `status`/`twinStatus`, `bodySame`, `logSame`).
+-/
 namespace Restful
 open Str Cors
 namespace Cors
 
-/-- the observation that the model's outcome amounts to.  The filter touches the response only
-    through `AddHeader` and the chain only through `ProcessFilter` (filter.go:17), so against a twin
-    without the filter the extra headers are the added ones, and everything behind the filter runs —
-    on the same request — exactly when the filter passes on. -/
-def obsOf (out : Out) : Spec.CorsObs :=
-  { reached := true, extra := out.added, missing := 0, status := 200, twinStatus := 200,
-    bodySame := out.passOn, logSame := out.passOn, later := out.passOn }
+/-- one finished exchange as the harness records it -/
+structure Exch where
+  headers : List (Str × Str)   -- response header lines (canonical name, value)
+  status : Nat
+  body : Str
+  log : List Str               -- the events logged BEHIND the CORS filter (later filters, route function)
+  deriving DecidableEq, Repr
+
+/-- everything behind the CORS filter, as a function of the header lines already on the response
+    when control arrives (filter.go:17 `FilterChain.ProcessFilter`).  The request is the same in both
+    containers, so it is not an argument.  ARBITRARY: user code. -/
+abbrev Rest := List (Str × Str) → Exch
+
+/-- the exchange when the filter does not pass control on: nothing behind it runs, the response is
+    what the filter added (net/http: status 200, no body).  Neither predicate reads status or body
+    of an exchange the filter answered alone. -/
+def answered (added : List (Str × Str)) : Exch := ⟨added, 200, [], []⟩
+
+/-- the container WITH the filter, given the filter's outcome -/
+def withFilter (k : Rest) (out : Out) : Exch := if out.passOn then k out.added else answered out.added
+
+/-- multiset difference of header lines: `l` minus `m` (real.go `Observe`: `lines(a.header)` against
+    `lines(b.header)`) -/
+def msub : List (Str × Str) → List (Str × Str) → List (Str × Str)
+  | l, [] => l
+  | l, b :: bs => msub (l.erase b) bs
+
+/-- harness/internal/cors/real.go `Observe` for a request that reached the filter chain: the real
+    exchange against the twin's -/
+def observe (real twin : Exch) : Spec.CorsObs :=
+  { reached := true
+    extra := msub real.headers twin.headers
+    missing := (msub twin.headers real.headers).length
+    status := real.status, twinStatus := twin.status
+    bodySame := real.body == twin.body
+    logSame := real.log == twin.log
+    later := !real.log.isEmpty }
+
+/-- the observation the model's outcome amounts to, in front of the rest `k` of the container -/
+def obsOf (k : Rest) (out : Out) : Spec.CorsObs := observe (withFilter k out) (k [])
+
+/-- the six names the filter writes -/
+def isCorsName (n : Str) : Bool :=
+  n == hExposeHeaders || n == hAllowMethods || n == hAllowOrigin || n == hAllowCredentials || n == hAllowHeaders || n == hMaxAge
+
+/-- What the twin comparison needs of the code BEHIND the filter.  None of it can come from a model
+    of the filter; it is what the harness's generated containers are built to satisfy (a logging
+    filter directly behind the CORS filter; route functions that only ADD `X-Handler` lines and never
+    look at the response headers) and what every run checks the consequences of on the real code. -/
+structure RestOK (k : Rest) : Prop where
+  /-- whatever runs behind the filter logs -/
+  logs : ∀ hs, (k hs).log ≠ []
+  /-- frame: the lines present on arrival are still there at the end, the code behind the filter
+      neither reads, overwrites nor deletes them — headers up to order (`http.Header` is a map) -/
+  frame : ∀ hs, (k hs).headers.Perm (hs ++ (k []).headers) ∧ (k hs).status = (k []).status ∧
+            (k hs).body = (k []).body ∧ (k hs).log = (k []).log
+  /-- it sets no CORS header itself (else the multiset difference `extra` would hide a grant) -/
+  noCors : ∀ h ∈ (k []).headers, isCorsName h.1 = false
+
+/-- a rest of the container of the shape the harness builds (harness/internal/cors/real.go
+    `buildOne`): the logging filter directly behind the CORS filter, then whatever logs `log`, and a
+    route function that ADDS one `X-Handler` line and writes a status and a body — blind to what is
+    already on the response.  Used to instantiate `RestOK` (non-vacuity). -/
+def exRest (id : Str) (status : Nat) (body : Str) (log : List Str) : Rest := fun hs =>
+  ⟨hs ++ [("X-Handler".toList, id)], status, body, "post".toList :: log⟩
+
+theorem exRest_ok (id : Str) (status : Nat) (body : Str) (log : List Str) : RestOK (exRest id status body log) where
+  logs := by intro hs; simp [exRest]
+  frame := by intro hs; simp [exRest]
+  noCors := by
+    intro h hh
+    have e : h = ("X-Handler".toList, id) := by simpa [exRest] using hh
+    have n : isCorsName "X-Handler".toList = false := by decide
+    rw [e]; exact n
+
+theorem count_msub (x : Str × Str) (l m : List (Str × Str)) :
+    (msub l m).count x = l.count x - m.count x := by
+  induction m generalizing l with
+  | nil => simp [msub]
+  | cons b bs ih =>
+    rw [msub, ih, List.count_erase, List.count_cons]
+    omega
+
+theorem msub_self (l : List (Str × Str)) : msub l l = [] := by
+  rw [List.eq_nil_iff_forall_not_mem]
+  intro x hx
+  have := count_msub x l l
+  have hp := List.count_pos_iff.mpr hx
+  omega
+
+/-- `l` is `a` on top of `t` ⇒ `l` minus `t` is `a` (up to order) and `t` minus `l` is nothing -/
+theorem msub_of_perm_append {l a t : List (Str × Str)} (h : l.Perm (a ++ t)) :
+    (msub l t).Perm a ∧ msub t l = [] := by
+  constructor
+  · rw [List.perm_iff_count]
+    intro x
+    rw [count_msub, h.count_eq x, List.count_append]
+    omega
+  · rw [List.eq_nil_iff_forall_not_mem]
+    intro x hx
+    have hc := count_msub x t l
+    rw [h.count_eq x, List.count_append] at hc
+    have hp := List.count_pos_iff.mpr hx
+    omega
+
+theorem msub_disjoint (l m : List (Str × Str)) (h : ∀ x ∈ m, x ∉ l) : msub l m = l := by
+  induction m generalizing l with
+  | nil => rfl
+  | cons b bs ih =>
+    rw [msub, List.erase_of_not_mem (h b (by simp))]
+    exact ih l (fun x hx => h x (by simp [hx]))
+
+/-- DERIVED from the model, for every rest of the container: when the filter passes control on, all
+    it has done is `AddHeader` — the exchange is the rest of the chain started on a response that
+    carries the added lines, and nothing else differs from the twin's start `k []`. -/
+theorem withFilter_passOn (k : Rest) (out : Out) (h : out.passOn = true) :
+    withFilter k out = k out.added := by
+  simp [withFilter, h]
+
+theorem withFilter_answered (k : Rest) (out : Out) (h : out.passOn = false) :
+    withFilter k out = answered out.added := by
+  simp [withFilter, h]
+
+/-- comparing an exchange with itself: exactly the twin's -/
+theorem sameAsTwin_observe_self (e : Exch) : Spec.sameAsTwin (observe e e) = true := by
+  simp [Spec.sameAsTwin, Spec.restSame, observe, msub_self]
+
+end Cors
+end Restful
+
+namespace Restful
+open Str Cors
+namespace Cors
+variable (lower : Str → Str) (E : ReEnv)
+
+/-- DERIVED from the model, for EVERY rest of the container (no `RestOK`): a request without Origin
+    or from a disallowed origin goes through the container with the filter exactly as through the
+    twin — the two exchanges are EQUAL, hence the observation is "same as twin" in every field. -/
+theorem withFilter_absent (cc : CorsCfg) (tbl : Config) (rq : CorsReq)
+    (h : Spec.originAllowed lower cc rq.origin = false) (k : Rest) :
+    ∃ out, corsOut lower E cc tbl rq = some out ∧ withFilter k out = k [] ∧
+      Spec.sameAsTwin (obsOf k out) = true := by
+  refine ⟨⟨[], true⟩, corsOut_not_allowed lower E cc tbl rq h, rfl, ?_⟩
+  exact sameAsTwin_observe_self (k [])
+
+/-- what the observation of a passed-on exchange is, given the frame hypotheses -/
+theorem observe_passOn (k : Rest) (hk : RestOK k) (added : List (Str × Str)) :
+    let o := observe (k added) (k [])
+    o.extra.Perm added ∧ Spec.restSame o = true ∧ o.later = true ∧ o.reached = true := by
+  obtain ⟨hh, hs, hb, hl⟩ := hk.frame added
+  obtain ⟨hp, hm⟩ := msub_of_perm_append hh
+  refine ⟨hp, ?_, ?_, rfl⟩
+  · simp [Spec.restSame, observe, hm, hs, hb, hl]
+  · have := hk.logs added
+    cases hlog : (k added).log with
+    | nil => exact absurd hlog this
+    | cons a as => simp [observe, hlog]
+
+/-- what the observation of an exchange the filter answered alone is, when the twin's response
+    carries no CORS header and the filter added only CORS headers -/
+theorem observe_answered (k : Rest) (hk : RestOK k) (added : List (Str × Str))
+    (hc : ∀ h ∈ added, isCorsName h.1 = true) :
+    let o := observe (answered added) (k [])
+    o.extra = added ∧ o.later = false ∧ o.reached = true := by
+  refine ⟨?_, rfl, rfl⟩
+  show msub added (k []).headers = added
+  apply msub_disjoint
+  intro x hx hx'
+  have h1 := hk.noCors x hx
+  have h2 := hc x hx'
+  rw [h1] at h2
+  cases h2
 
 end Cors
 end Restful
@@ -401,6 +590,60 @@ theorem preflightOK_iff (cc : CorsCfg) (ms : List Str) (rq : CorsReq) :
     Spec.preflightOK lower cc ms rq = true ↔
       (rq.acrm ∈ ms ∧ ∀ h ∈ Spec.requestedHeaders rq.acrh, ∃ a ∈ cc.allowedHeaders, lower a = lower h ∨ a = sStar) := by
   simp [Spec.preflightOK, Spec.headerAllowed]
+
+end Cors
+end Restful
+
+namespace Restful
+open Str Cors
+namespace Cors
+
+theorem valuesOf_perm (n : Str) {l l' : List (Str × Str)} (h : l.Perm l') :
+    (Spec.valuesOf n l).Perm (Spec.valuesOf n l') :=
+  (h.filter _).map _
+
+/-- the filter writes only the six CORS names -/
+theorem actualHeaders_corsNames (cc : CorsCfg) (rq : CorsReq) :
+    ∀ h ∈ Spec.actualHeaders cc rq, isCorsName h.1 = true := by
+  have e : isCorsName hExposeHeaders = true := by decide
+  have o : isCorsName hAllowOrigin = true := by decide
+  have c : isCorsName hAllowCredentials = true := by decide
+  have m : isCorsName hMaxAge = true := by decide
+  intro h hh
+  unfold Spec.actualHeaders at hh
+  simp only [List.mem_append, List.mem_singleton] at hh
+  rcases hh with ((hh | hh) | hh) | hh
+  · split at hh
+    · cases hh
+    · simp only [List.mem_singleton] at hh; subst hh; exact e
+  · subst hh; exact o
+  · split at hh
+    · simp only [List.mem_singleton] at hh; subst hh; exact c
+    · cases hh
+  · split at hh
+    · simp only [List.mem_singleton] at hh; subst hh; exact m
+    · cases hh
+
+theorem preflightGrant_corsNames (cc : CorsCfg) (ms : List Str) (rq : CorsReq) :
+    ∀ h ∈ preflightGrant cc ms rq, isCorsName h.1 = true := by
+  intro h hh
+  simp only [preflightGrant, List.mem_cons] at hh
+  rcases hh with rfl | rfl | hh
+  · simp [isCorsName]
+  · simp [isCorsName]
+  · exact actualHeaders_corsNames cc rq h hh
+
+/-- beyond Allow-Methods and Allow-Headers a grant consists of actual-request headers -/
+theorem preflightGrant_only (cc : CorsCfg) (ms : List Str) (rq : CorsReq) :
+    (preflightGrant cc ms rq).all
+      (fun h => h.1 == hAllowMethods || h.1 == hAllowHeaders || (Spec.actualHeaders cc rq).contains h) = true := by
+  rw [List.all_eq_true]
+  intro h hh
+  simp only [preflightGrant, List.mem_cons] at hh
+  rcases hh with rfl | rfl | hh
+  · simp
+  · simp
+  · simp [hh]
 
 end Cors
 end Restful
